@@ -36,6 +36,8 @@ _CDF_STEP = ("                        dmpfrc0 = dmpfrc1 if i_last == i - 1 else 
              "                        i_last = i\n"
              "                        _f0 = F0k - dmpfrc0\n")
 
+_CDF_TAIL = "                        i_last = i\n                        _f0 = F0k - dmpfrc0\n"
+
 RECIPES = [
     # ------------------------------------------------------------------ breaking
     ("C08", "break", ["C08-R1"], UNC, _CDF_STEP,
@@ -51,6 +53,16 @@ RECIPES = [
     ("C08", "break", ["C08-R1", "C08-R2"], UNC, _CDF_STEP,
      "                        dmpfrc0 = dmpfrc1 if i_last == i - 1 else bo @ di\n                        i_last = i\n                        _f0 = F0k - dmpfrc0\n",
      "recompute arm uses the displacement of step i-1"),
+    # order comparisons of the step indices (round-5 seed L and its siblings): decided on the send histories redo / jump back / skip ahead / far
+    ("C08", "break", ["C08-R1", "C08-R2"], UNC, _CDF_STEP, "                        dmpfrc0 = bo @ vi if i < i_last else dmpfrc1\n" + _CDF_TAIL,
+     "cache guard: recompute only after a step back (send(i) twice uses the force of step i as that of step i-1)"),
+    ("C08", "break", ["C08-R1"], UNC, _CDF_STEP, "                        dmpfrc0 = dmpfrc1 if i <= i_last + 1 else bo @ vi\n" + _CDF_TAIL,
+     "cache guard: cache used whenever the cached step is not before i-1 (stale on redo and jump back)"),
+    ("C08", "break", ["C08-R1", "C08-R2"], UNC, _CDF_STEP, "                        dmpfrc0 = dmpfrc1 if i_last < i else bo @ vi\n" + _CDF_TAIL,
+     "cache guard: cache used whenever the cached step is an earlier one (stale on a skip ahead)"),
+    ("C08", "break", ["C08-R1", "C08-R2"], UNC, _CDF_STEP,
+     "                        if i_last >= i:\n                            dmpfrc0 = bo @ vi\n                        else:\n                            dmpfrc0 = dmpfrc1\n" + _CDF_TAIL,
+     "cache guard as if/else on i_last >= i (stale on a skip ahead)"),
     ("C08", "break", ["C08-R1"], UNC, "        bo = self.bo\n        i_last = 0\n\n        if self.order == 1:\n", "        bo = self.bo\n        i_last = 1\n\n        if self.order == 1:\n",
      "cache tagged with step 1 while it holds the force of step 0"),
     ("C08", "break", ["C08-R3"], SE2, "                        PQF = Q @ F1[kdof]\n                        D[:, i] += PQF[ksize:]\n                        V[:, i] += PQF[:ksize]\n",
@@ -109,6 +121,19 @@ RECIPES = [
     ("C08", "neutral", [], UNC, "                        i = j\n                        Force[:, i] = F1\n                        # rb + el:\n                        F0k = Force[kdof, i - 1]\n                        F1k = F1[kdof]\n                        di = D[:, i - 1]\n                        vi = V[:, i - 1]\n                        D[:, i] = F * di",
      "                        i = int(j)\n                        Force[:, j] = F1\n                        # rb + el:\n                        F0k = Force[kdof, j - 1]\n                        F1k = F1[kdof]\n                        di = D[:, i - 1]\n                        vi = V[:, j - 1]\n                        D[:, i] = F * di",
      "positive send addresses the columns through the sent index itself"),
+    # correct spellings of the cache guard, equality and order comparisons of the step indices alike
+    ("C08", "neutral", [], UNC, _CDF_STEP, '                        dmpfrc0 = dmpfrc1 if i_last + 1 == i else bo @ vi\n' + _CDF_TAIL,
+     'cache guard written i_last + 1 == i'),
+    ("C08", "neutral", [], UNC, _CDF_STEP, '                        dmpfrc0 = dmpfrc1 if i - i_last == 1 else bo @ vi\n' + _CDF_TAIL,
+     'cache guard written i - i_last == 1'),
+    ("C08", "neutral", [], UNC, _CDF_STEP, '                        dmpfrc0 = dmpfrc1 if not (i_last != i - 1) else bo @ vi\n' + _CDF_TAIL,
+     'cache guard written not (i_last != i - 1)'),
+    ("C08", "neutral", [], UNC, _CDF_STEP, '                        dmpfrc0 = dmpfrc1 if i_last < i <= i_last + 1 else bo @ vi\n' + _CDF_TAIL,
+     'cache guard as a chained order comparison that pins i_last = i - 1'),
+    ("C08", "neutral", [], UNC, _CDF_STEP, '                        dmpfrc0 = bo @ vi if (i_last < i - 1 or i_last > i - 1) else dmpfrc1\n' + _CDF_TAIL,
+     'cache guard: recompute when the cached step lies on either side of i - 1'),
+    ("C08", "neutral", [], UNC, _CDF_STEP, '                        if i_last < i - 1 or i <= i_last:\n                            dmpfrc0 = bo @ vi\n                        else:\n                            dmpfrc0 = dmpfrc1\n' + _CDF_TAIL,
+     'cache guard as if/else on two order comparisons (skip ahead or not after the cached step)'),
     ("C08", "neutral", [], UNC, _CDF_STEP,
      "                        if i_last != i - 1:\n                            dmpfrc0 = bo @ vi\n                        else:\n                            dmpfrc0 = dmpfrc1\n"
      "                        i_last = i\n                        _f0 = F0k - dmpfrc0\n",
